@@ -31,6 +31,8 @@ func TestHarness(t *testing.T) {
 		res = runC18(t, raw)
 	case "link":
 		res = runLinks(t, raw)
+	case "pure":
+		res = runPure(t, raw)
 	default:
 		t.Fatalf("unknown mode %q", *flagMode)
 	}
